@@ -5,11 +5,12 @@ set -u
 cd /verif
 PAT=${1:-}
 export GOFLAGS=-mod=mod GOPROXY=off GOSUMDB=off GOTOOLCHAIN=local
-WT=/tmp/wt_recheck
+WT=/tmp/wt_recheck_$$
 git -C /repo worktree remove --force $WT 2>/dev/null
 git -C /repo worktree add --detach $WT HEAD -q || exit 2
 for d in seeded/*${PAT}*/; do
   sid=$(basename $d)
+  case $sid in red-*) [ "${2:-}" = blind ] && continue;; esac
   prop=$(python3 -c "import json;print(json.load(open('$d/meta.json'))['property'])")
   git -C $WT checkout -q -- . ; git -C $WT clean -fdq
   if ! git -C $WT apply "/verif/$d/patch.diff" 2>/dev/null; then
